@@ -15,6 +15,7 @@ import (
 
 	"github.com/gotid/god/internal/verifdrv"
 	"github.com/gotid/god/lib/timex"
+	"google.golang.org/grpc/attributes"
 	"google.golang.org/grpc/balancer"
 	"google.golang.org/grpc/balancer/base"
 	"google.golang.org/grpc/codes"
@@ -51,9 +52,14 @@ type verifOp struct {
 }
 
 type verifCase struct {
-	N     int       `json:"n"`     // number of ready connections
-	Start int64     `json:"start"` // initial reading of the virtual clock (ns)
-	Ops   []verifOp `json:"ops"`
+	N     int   `json:"n"`     // number of ready connections
+	Start int64 `json:"start"` // initial reading of the virtual clock (ns)
+	// optional, per ready SubConn i: key of its resolver.Address.Addr (several SubConns may share one), of its
+	// ServerName, and whether it carries Attributes. Default: Addr distinct per SubConn, no ServerName/Attributes.
+	Addrs  []int     `json:"addrs"`
+	Snames []int     `json:"snames"`
+	Attrs  []int     `json:"attrs"`
+	Ops    []verifOp `json:"ops"`
 }
 
 type verifStep struct {
@@ -98,15 +104,32 @@ func TestVerifDriver(t *testing.T) {
 		timex.VerifSetNow(time.Duration(c.Start))
 		ready := make(map[balancer.SubConn]base.SubConnInfo)
 		ids := make(map[balancer.SubConn]int)
+		addrKey := map[string]int{}
+		snameKey := map[string]int{"": 0}
 		for i := 0; i < c.N; i++ {
 			sc := mockClientConn{id: "verif-" + strconv.Itoa(i)}
-			ready[sc] = base.SubConnInfo{Address: resolver.Address{Addr: strconv.Itoa(i)}}
+			addr := resolver.Address{Addr: strconv.Itoa(i)}
+			if i < len(c.Addrs) {
+				addr.Addr = "10.0.0." + strconv.Itoa(c.Addrs[i]) + ":8080"
+				addrKey[addr.Addr] = c.Addrs[i]
+			} else {
+				addrKey[addr.Addr] = i
+			}
+			if i < len(c.Snames) && c.Snames[i] > 0 {
+				addr.ServerName = "srv-" + strconv.Itoa(c.Snames[i])
+				snameKey[addr.ServerName] = c.Snames[i]
+			}
+			if i < len(c.Attrs) && c.Attrs[i] > 0 {
+				addr.Attributes = attributes.New("verif", c.Attrs[i])
+			}
+			ready[sc] = base.SubConnInfo{Address: addr}
 			ids[sc] = i
 		}
 		picker := new(p2cPickerBuilder).Build(base.PickerBuildInfo{ReadySCs: ready})
 		p, isP2c := picker.(*p2cPicker)
 		src := &verifSource{}
 		order := []int{}
+		connAddr := [][]int{} // per tracked conn: key of the Addr and of the ServerName it was built with
 		if isP2c {
 			p.r = rand.New(src)
 			for _, sc := range p.conns {
@@ -115,6 +138,15 @@ func TestVerifDriver(t *testing.T) {
 					id = -1
 				}
 				order = append(order, id)
+				ak, ok1 := addrKey[sc.addr.Addr]
+				sk, ok2 := snameKey[sc.addr.ServerName]
+				if !ok1 {
+					ak = -1
+				}
+				if !ok2 {
+					sk = -1
+				}
+				connAddr = append(connAddr, []int{ak, sk})
 			}
 		}
 		type token struct {
@@ -192,6 +224,6 @@ func TestVerifDriver(t *testing.T) {
 			}
 			steps = append(steps, st)
 		}
-		return map[string]any{"order": order, "p2c": isP2c, "steps": steps}
+		return map[string]any{"order": order, "connaddr": connAddr, "p2c": isP2c, "steps": steps}
 	})
 }
